@@ -8,7 +8,7 @@ patch = os.path.abspath(sys.argv[1])
 props = sys.argv[2:]
 tmp = tempfile.mkdtemp(prefix='sedlint-seed-', dir='/root/scratch' if os.path.isdir('/root/scratch') else None)
 try:
-    subprocess.check_call('git -C /repo archive HEAD sedfitter | tar -x -C %s' % tmp, shell=True)
+    subprocess.check_call('git -C /repo archive %s sedfitter | tar -x -C %s' % (os.environ.get('SEEDCHECK_REV', 'HEAD'), tmp), shell=True)
     r = subprocess.run(['git', 'apply', '--whitespace=nowarn', patch], cwd=tmp, capture_output=True, text=True)
     if r.returncode != 0:
         r = subprocess.run(['patch', '-p1', '-i', patch], cwd=tmp, capture_output=True, text=True)
